@@ -374,7 +374,7 @@ pub fn property() -> Property {
             SubCheck::index("claim_race", "two stations whose silence time-outs run out in the same instant (constructed; probe of the known finding claim-race-lockstep)", claim_race_case),
         ],
         plan: |tier| match tier {
-            Tier::Quick => vec![Step::Enumerate { kind: "claim_race", count: 12 }, Step::Pbt { kind: "recovery", cases: 300, max_len: 160 }],
+            Tier::Quick => vec![Step::Enumerate { kind: "claim_race", count: 12 }, Step::Pbt { kind: "recovery", cases: 800, max_len: 160 }],
             Tier::Thorough => vec![Step::Enumerate { kind: "claim_race", count: 12 }, Step::Pbt { kind: "recovery", cases: 8000, max_len: 160 }],
         },
         hang_is_violation: true,
